@@ -299,14 +299,14 @@ def jobs(tier):
     for mode in (C.MODES4 if th else ["gregorian", "360day"]):
         greg = mode == "gregorian"
         J.append(("job_sub", dict(mode=mode, ra="ord", rb="ord", samezone=True, tzh=(-99, 99))))
-        plan = [("ord", "ord", [HOURS, MINS] + ([FULL] if th else [])),
-                ("cal", "cal", [SAME, HOURS] + ([MINS, FULL] if th else []))]
+        plan = [("ord", "ord", [HOURS, MINS] + ([FULL] if th and greg else [])),
+                ("cal", "cal", [SAME, HOURS] + ([MINS] if th else []))]
         if greg or th:
-            plan += [("cal", "ord", [HOURS] + ([SAME, MINS] if th else [])),
-                     ("ord", "cal", [SAME] + ([HOURS, MINS] if th else []))]
+            plan += [("cal", "ord", [HOURS] + ([SAME] if th else [])),
+                     ("ord", "cal", [SAME] + ([HOURS] if th else []))]
         for ra, rb, zcs in plan:
             for zc in zcs:
-                for rg in sub_windows(ra, rb, th, mode):
+                for rg in sub_windows(ra, rb, th and greg and ra == rb, mode):
                     J.append(("job_sub", dict(mode=mode, ra=ra, rb=rb, ranges=rg, **zc)))
         for ka, kb in ((4, 5), (5, -2500), (-1, 0)):
             J.append(("job_sub", dict(mode=mode, ra="ord", rb="ord", near=None, tzm=(0, 0), tzh=(-14, 14),
@@ -325,9 +325,9 @@ def jobs(tier):
             wz = {("week", "ord"): HOURS, ("ord", "week"): SAME, ("week", "cal"): SAME, ("cal", "week"): HOURS,
                   ("week", "week"): HOURS}
             for (ra, rb), zc in wz.items():
-                for res in ((0, 99, 104, 203, 300, 399) if th else (104,)):
+                for res in ((0, 104, 399) if (th and greg) else (104,)):
                     pins = C.residue_pins(res, "a")
-                    for rg in sub_windows(ra, rb, th, mode):
+                    for rg in sub_windows(ra, rb, False, mode):
                         J.append(("job_sub", dict(mode=mode, ra=ra, rb=rb, ranges=rg, pins=pins, **zc)))
         for unit, lim in (("days", 400), ("hours", 50), ("seconds", 90000)):
             J.append(("job_addsub", dict(mode=mode, rep="ord", unit=unit, nlo=-lim, nhi=lim, tzh=(-3, 3),
@@ -356,7 +356,7 @@ INFO = {
                          "dates": "same zone: every pair of ordinal dates; otherwise narrow windows (days 1-2, 59-60, last two; 1-2 Jan, 1 Feb/1 Mar, 30-31 Dec; W01-1/2, W09-3/4, W52/53-6/7), first window of a with last of b etc.; week dates with year residue 104 pinned; each representation pair under one or two of the zone configurations",
                          "round trips": "anti-symmetry and b + (a - b): ordinal, first/last days of the year, whole-hour offsets +-3; (p + d) - p: ordinal days 1-3 / last two, d in days +-400, hours +-50, seconds +-90000",
                          "modes": "gregorian, 360day"},
-               "thorough": {"modes": "all 4", "offsets": "additionally independent offsets -14:59..+14:59", "dates": "all 9 window pairs per representation pair, 6 year residues for week dates"}},
+               "thorough": {"modes": "all 4", "offsets": "additionally independent offsets -14:59..+14:59 (ordinal pairs, gregorian)", "dates": "all 9 window pairs for same-representation pairs in gregorian, year residues 0, 104, 399 for week dates"}},
     "outside": ["fractional seconds; decimal forms other than hh,ii / hh:mm,nn with the fractions .25 .5 .75 on ordinal dates around New Year (same zone or whole-hour offsets +-2), which are decided exactly", "operands whose offsets differ in both hours and minutes (quick tier); the zone conversion itself is C06's subject", "operand dates outside the stated windows for the mixed-representation pairs",
                 "distances of thousands of years other than the three pinned cycle-index pairs"],
     "assumptions": ["get_days_in_year_range runs as its closed form (discharged by C03 in the same source state)"],
